@@ -583,6 +583,10 @@ fn programs(thorough: bool) -> Vec<Item> {
         prog(true, CancelInPollKeepWaker, &[WakeRef, DropWaker], &[DropWaker], 2),
         prog(false, NeverKeepWaker, &[Cancel, DropWaker], &[WakeRef, DropPromise, DropWaker], 2),
         prog(true, NeverKeepWaker, &[WakeRef, Cancel, DropWaker], &[DropWaker], 2),
+        // Cancelled while being polled (the poll returns Pending), then woken again.
+        prog(true, Never, &[WakeRef, Cancel], &[WakeRef], 2),
+        prog(false, Pending(2), &[WakeRef, Cancel], &[WakeRef, WakeRef], 3),
+        prog(true, NeverKeepWaker, &[WakeRef, Cancel], &[WakeRef, DropWaker], 2),
         // Two executor threads: successive polls on different threads.
         prog2(true, Pending(2), &[WakeRef, WakeRef], 1),
         prog2(true, Never, &[WakeRef, WakeVal], 1),
